@@ -108,9 +108,9 @@ theorem convAnysL_mp {u u' : GoVal} (h : MP u u') : RRel true (ArgValRelM .anys)
     | unmodelled w => exact .inr rfl
   | slice t hl => exact ⟨_, _, rfl, rfl, convElems_mp hl⟩
   | array t hl => exact ⟨_, _, rfl, rfl, convElems_mp hl⟩
-  | map kt vt hv hk hn hm hp =>
+  | map kt vt hv hk hn hm hp ht =>
     simp only [convAnysL]
-    rcases sortedMapEntries_mp (MP.map kt vt hv hk hn hm hp) with ⟨es, es', h1, h2, hs⟩ | ⟨w, h1, h2⟩
+    rcases sortedMapEntries_mp (MP.map kt vt hv hk hn hm hp ht) with ⟨es, es', h1, h2, hs⟩ | ⟨w, h1, h2⟩
     · rw [h1, h2]; exact ⟨_, _, rfl, rfl, convElems_mp hs.vals⟩
     · rw [h1, h2]; exact .inl rfl
   | mapVals kt vt hv hn hm =>
@@ -586,7 +586,7 @@ theorem isEmpty_mp {v v' : GoVal} (h : MP v v') : isEmpty v = isEmpty v' := by
   | refl => rfl
   | slice t hl => exact isEmpty_len hl.length_eq
   | array t hl => exact isEmpty_len hl.length_eq
-  | map kt vt hv hk hn hm hp => exact isEmpty_len (by rw [hm.length_eq, hp.length_eq])
+  | map kt vt hv hk hn hm hp ht => exact isEmpty_len (by rw [hm.length_eq, hp.length_eq])
   | mapVals kt vt hv hn hm => exact isEmpty_len hm.length_eq
   | mapSlice hm => exact isEmpty_len hm.length_eq
   | keyedMap hn hf => exact isEmpty_len hf.length_eq
